@@ -116,6 +116,24 @@ def run_c15(ctx, fa):
         c["features"] = features(ir, g)
         c["nodes"] = gen.count_nodes(ir)
         cases.append(c)
+    # directed: maps / arrays whose values are records that END in an optional record that ends in an optional record (pending actions of
+    # several levels when the value closes)
+    for i in range(12 if ctx.quick() else 120):
+        addr = {"type": "record", "name": "Address", "fields": [{"name": "zip", "type": "string"}]}
+        cust = {"type": "record", "name": "Customer", "fields": [{"name": "name", "type": "string"}, {"name": "address", "type": ["null", addr]}]}
+        order = {"type": "record", "name": "Order", "fields": [{"name": "id", "type": "int"}, {"name": "customer", "type": ["null", cust]}]}
+        raw = {"type": "map", "values": order} if rnd.random() < 0.6 else {"type": "array", "items": {"type": "map", "values": order}}
+
+        def one():
+            lvl = rnd.choice([0, 1, 2, 2])
+            c_ = None if lvl == 0 else {"name": rnd.choice(["n", "é"]), "address": None if lvl == 1 else {"zip": rnd.choice(["", "123"])}}
+            return {"id": rnd.randint(0, 9), "customer": c_}
+        m = {k: one() for k in rnd.sample(["o1", "o2", "id", "é"], rnd.randint(1, 3))}
+        recs = [m if raw["type"] == "map" else [m, {"x": one()}]]
+        c = json_case(fa, "j%d" % len(cases), raw, recs, wut=True, defaulted=[])
+        c["features"] = {"empty_record": False, "recursive": False, "map": True, "union": True, "bytes": False, "named_reuse": False}
+        c["nodes"] = 6
+        cases.append(c)
     ctx.rule = ("seeded schemas of every top-level kind (nested arrays/maps/unions/records, by-name references, recursive types, records without "
                 "fields) x 1-3 conforming records x write_union_type; floats restricted to finite values, binary32-exact under float; the text written by "
                 "json_writer is parsed with the standard json module and compared by TLC with AvroJson!JsonEnc; json_reader's result is compared with "
